@@ -127,6 +127,55 @@ def run_matches(tier, tables, tag, only=None):
             "runs": res, "states": sum(r["states"] for r in res.values())}
 
 
+def _fv(t, bound=()):
+    out = {x for x in t["sl"] if x not in bound}
+    for c in t["ch"]:
+        out |= _fv(c["t"], tuple(bound) + tuple(c["bd"]))
+    return out
+
+
+def run_apply(tier, tabs, tag):
+    """design-level C04: spec/ApplyOp.tla (pattern_subst, union_instantiations, apply_rewrites over the operational e-matcher) makes every
+    planted instance fire whose left side the declarative specification calls represented - on every reachable quiescent state of
+    EGraphOp over the fire universes (tabs: the MC_Fire tables of this run)"""
+    import concurrent.futures
+    cfg = open(os.path.join(SPEC, "MC_ApplyOp.cfg")).read()
+    res = {}
+
+    def one(t):
+        name, uni, tpath, st, states = t
+        us = json.load(open(tpath))["us"]
+        pui = pool_index(us, uni["terms"])
+        recs = []
+        for s in states:
+            r = {"key": s["key"], "lab": s["plab"], "slots": s["slots"], "syms": s["syms"], "pleaf": s["pleaf"], "psize": s["psize"],
+                 "mtt": [], "nored": False}
+            r["rep"] = [s["lab"][i - 1] != 0 for i in pui]
+            r["scope"] = all((not r["rep"][ti]) or len(s["slots"][ti]) == len(_fv(uni["terms"][ti])) for ti in range(len(uni["terms"])))
+            recs.append(r)
+        me = max(len(s["key"]) for s in states)
+        defs = {"MCOpTermPool": uni["terms"], "MCOpEqPool": uni["eqs"], "MCOpInsBase": tla_set(uni["base"]),
+                "MCOpMaxEqs": me, "MCExpected": tla_set(recs), "MCOpEager": False, "MCPolicy": "fifo", "MCAnalysis": "none",
+                "MCOpPatterns": [], "MCOpN": uni["N"], "MCOpRule": {"l": uni["rule"]["l"], "r": uni["rule"]["r"]},
+                "MCOpInstances": [{"l": i["l"], "r": i["r"]} for i in uni["instances"]]}
+        logp, st2 = run_tlc_root("%s_applyop_%s" % (tag, name), "MC_ApplyOp", defs, cfg, workers=4, timeout=3000, xss=True)
+        return name, logp, st2, list(tlcout.tagged_lines(logp, "OPBAD")), sum(1 for r in recs if r["scope"]), \
+            sum(sum(1 for i in uni["instances"] if r["rep"][i["l"] - 1]) for r in recs if r["scope"])
+    t0 = time.time()
+    with concurrent.futures.ThreadPoolExecutor(max_workers=4) as ex:
+        for name, logp, st2, bad, nscope, ninst in ex.map(one, tabs):
+            require_tlc_ok(st2, logp, "MC_ApplyOp/" + name)
+            if bad:
+                raise ToolError("the operational model ApplyOp.tla disagrees with MC_Fire on %s: %s" % (name, json.dumps(bad[0])[:400]))
+            res[name] = {"states": st2["distinct"], "states_in_scope": nscope, "instances_that_must_fire": ninst, "wall_s": st2["wall_s"]}
+    log("ApplyOp fires the planted instances: %d model runs, %d states, %.1fs" % (len(res), sum(r["states"] for r in res.values()), time.time() - t0))
+    return {"what": "design level: spec/ApplyOp.tla (pattern_subst, union_instantiations, apply_rewrites: all searchers - the operational "
+                    "e-matcher EMatchOp.tla - before any applier) on every reachable quiescent state of spec/EGraphOp.tla over the fire universes: "
+                    "after one call every planted instance whose left side SlottedCC calls represented has its right side represented and "
+                    "equal; the state stays well-formed and keeps refining SlottedCC before the call",
+            "runs": res, "states": sum(r["states"] for r in res.values())}
+
+
 if __name__ == "__main__":
     # debugging entry: egop.py <universe.json> <table.json> <maxeqs> [policy] [eager]
     uni = json.load(open(sys.argv[1]))
